@@ -12,12 +12,66 @@ THEOREMS = {
         "extractor_recognised_everything", "generic_shape_inst", "handler_shape_inst", "semanticSubset_inst", "branchesComplete_inst", "copyTotal_inst", "helpers_allocate_inst",
         "schemaCopyOK_inst",
         # current code: the full statement, both halves
-        "c11_copy", "c11_walk",
+        "c11_copy", "c11_copy_total", "copy_total", "c11_walk", "c11",
         # the old copy table (errors copied by assignment), as a named constant: refutation, partial, repaired
         "schemaCopyOK_old_fails", "c11_copy_full_refuted_old", "schemaCopyOK_partial_old", "c11_copy_partial_old",
         "schemaCopyOK_fixed_old", "c11_copy_fixed_old",
     )],
 }
+
+# property clause -> theorem(s) that prove it for ALL values / trees / visitors / schedules, with their hypotheses | what is only tied or searched
+CLAUSES = {
+    "copy is structurally equal to the original":
+        "c11_copy / c11_copy_total (= copy_equal_and_fresh + schemaCopyOK_inst by decide +kernel on the regenerated copy table): erase(copy v) = erase v for every value v. "
+        "Hypothesis of c11_copy_total: allHandled tables v (every node of v has a type and shape Copy has a case for, no typed-nil pointer) - a condition on the value alone; "
+        "copy_never_panics turns it into 'Copy does not panic'. copyTotal_inst (decide): every node type of the schema and the static type of every deeply copied field has a case.",
+    "copy shares no mutable part (later changes to either side invisible in the other)":
+        "same theorems, second half: no address in mutAddrs(copy v) occurs in v. Every slice / map / struct pointer carries an address, also EMPTY slices (backing arrays at len 0). "
+        "'Mutable' excludes only value fields, opaque any payloads and frozen scalar slices (none is frozen in the current tables). Hypotheses: allHandled v; the allocator hands out "
+        "addresses not used by v. The side condition includes helpers_allocate_inst (decide): every function on a copy path - the Copy dispatcher, all copy() methods, copySlice and the "
+        "library collaborator graph.Kinds.Copy - returns a fresh object or nil on every return path and never its argument (facts read by c11helpers.go from every return statement).",
+    "structural walk visits every modelled child exactly once":
+        "c11_walk / structural_visits_all + branchesComplete_inst (decide): for every value whose structural branch tree has no nil branch the never-acting structural walk returns nil, its "
+        "enter list has no duplicate (nodes identified by access path: treeOf_nodup) and contains every node the SCHEMA says the value has (treeOf_sub). For arbitrary Consume schedules: "
+        "consume_schedule_complete / tree_monitor_accepts_generic (every node not below a consumed node entered and exited once, in branch order).",
+    "properly nested enter/exit notifications":
+        "enter_exit_nested (every tree, EVERY visitor: the log is a prefix of a Dyck word; complete Dyck word when no callback cancels and nil is returned) and monitor_accepts_generic.",
+    "visits a superset of the semantic walk":
+        "c11_walk / semantic_subset_structural + semanticSubset_inst (decide). Hypothesis: neither branch tree contains a nil branch; never-acting visitors.",
+    "stops immediately when the visitor asks to stop (Done / error)":
+        "done_stops_immediately, error_stops_immediately (every tree, every visitor: no event after the callback, nil resp. the visitor's error returned); "
+        "generic_shape_inst (decide): in walk.go the error check follows every callback and the done check every Enter / Visit.",
+    "reports (rather than skips) nil branches":
+        "nil_branch_is_error, plain_walk (a nil branch outside consumed subtrees makes the walk return the constructor's error; without one it returns nil). Which values have nil branches "
+        "is decided by the extracted branch tables (nil slice elements; typed-nil pointers where the constructor has no isNilNode guard).",
+    "consume schedules (added): Consume in Enter / Visit / Exit, in several callbacks of one node":
+        "consume_next_is_exit, consume_prunes_exactly_subtree, consume_schedule_complete, tree_monitor_accepts_generic - all for every tree; the last three for EVERY visitor (function of the history).",
+    "handler methods (added): Consume / SetDone / SetError(nil and non-nil) / WasConsumed":
+        "handler_calls_exact (any call sequence = its net action, exact), setError_nil_never_cancels; handler_shape_inst (decide on facts read from the handler's method bodies).",
+    "reused visitors (added): sequences of walks with one visitor object":
+        "walk_leaves_handler_clean (no cancelling callback => handler back in its initial state, any Consume schedule), reused_visitor_walk (the next walk equals a fresh visitor's), "
+        "reused_done_visitor_walks_nothing (a cancelled / failed visitor gets no callback; done and err persist by design).",
+    "termination": "generic_terminates (every finite tree, every visitor; fuel 2*size+2).",
+    "full statement": "def C11_full = C11_copy_full /\\ C11_walk_full, theorem c11 : C11_full (current code). Old copy table: c11_copy_full_refuted_old etc. over the named constant tablesOld.",
+    "searched only (tie)":
+        "that the Lean objects are what the Go code does: (1) the transcription of walk.Generic and of the handler (event-by-event equality of every scripted walk incl. handler-call sequences, "
+        "consume schedules and two-walk sequences, for walk.Cypher, walk.CypherStructural and walk.PgSQL); (2) that treeOf on the extracted branch tables is what newCypherWalkCursor / "
+        "newCypherStructuralWalkCursor yield (same comparison) and that the extracted schema is the real one (type and field names from reflection); (3) that the extracted copy table and helper "
+        "facts describe cypher.Copy (aliased-field report incl. backing arrays of empty slices, 3-phase mutate-and-recompare with different appends on both sides, drained lists); "
+        "(4) the pgsql cursor constructor is not tabulated at all: its branch tree is decoded from the real never-acting log, only the Generic protocol is checked on it; "
+        "(5) graph.Kinds.Copy copies its elements with the builtin copy (only its return paths are read); Go slice / append / map semantics.",
+    "named assumptions":
+        "values are trees (a pointer shared inside one model is duplicated by Copy; none in parsed corpus models); opaque any payloads (Literal.Value, Parameter.Value) and graph.Kind / error "
+        "values are immutable scalars; typed-nil pointers and nil slice elements are outside the property's quantifier for Copy (8 copy() methods dereference a nil receiver) - for the walkers "
+        "they are covered (nil_branch_is_error); visitors are functions of the event history of the current walk (no hidden state other than the handler); the extractors are syntactic.",
+}
+
+
+def extra_coverage(ctx, stats):
+    return {"clause_map": CLAUSES,
+            "proved_for_the_live_code": ["C11_full (c11)", "c11_copy_total (no panic hypothesis)"],
+            "refuted_for_the_old_copy_table": ["C11_copy_full_old (c11_copy_full_refuted_old; fixed in a4462d5)"]}
+
 
 
 def do_regen(ctx):
@@ -117,6 +171,7 @@ SPEC = {
                 "impl_view": pg_impl_view, "keep_prefix": 1, "thorough_seeds": 1}],
     "nontrivial": nontrivial,
     "finding_key": finding_key,
+    "extra_coverage": extra_coverage,
     "rule": "cases = the type registry check + random query-model values of EVERY node type built by reflection over the struct definitions "
             "(4 seeds x depths 1-4 per type quick, 40 thorough; optionals set/unset, nil/empty/EMPTY-BUT-ALLOCATED (len 0, cap 1-2, or drained through the model's own Add+Remove)/non-empty slices and maps, 0-4 AddError calls, opaque "
             "any payloads incl. slices/maps; every 4th value 'nilish': nil slice elements / typed-nil pointers in interfaces) + the model parsed from every "
@@ -138,8 +193,8 @@ SPEC = {
         "opaque any payloads (Literal.Value, Parameter.Value) are immutable scalars (the harness reports slice/map/pointer dynamic types it meets: counter copy.opaque_ref_payload; none in parsed corpus models)",
     ],
     "assumptions": [
-        "copy_equal_and_fresh assumes Copy does not panic on the value (copyPanics = false); copyTotal_inst shows every node type and every deep field's static type has a case, "
-        "and the harness observed no panic on any clean value; typed-nil pointers / nil slice elements are outside the property's quantifier (8 copy() methods dereference a nil receiver)",
+        "c11_copy_total needs allHandled v: every node of the value has a type Copy has a case for and there is no typed-nil pointer (copyTotal_inst: that is every schema node type and every "
+        "deep field's static type); typed-nil pointers / nil slice elements are outside the property's quantifier for Copy (8 copy() methods dereference a nil receiver); the harness observed no panic on any clean value",
         "values are trees: a pointer shared inside one model is copied twice by Copy (harness counter values.dag = 0 on all parsed corpus models)",
         "walk.PgSQL: only the walk.Generic protocol is claimed (no completeness statement exists for the pgsql cursor constructor; statements containing node types it has no case for "
         "— *pgsql.RecordShape, pgsql.Wildcard, Insert/Update/Delete — make it return an error, counted as pg.unhandled.* in branch_hist)",
@@ -150,13 +205,17 @@ MANIFEST = {
     "category": "proof",
     "technique": "Lean 4 generic theorems over schema/copy-table/branch-table + exact transcription of walk.Generic for all trees and visitors; instantiated by kernel-checked "
                  "decide on tables regenerated from model.go/copy.go/walk_cypher.go; differential tie on reflection-built and parsed models, both real walkers, scripted visitors",
-    "text": "Proved for every finite tree and every visitor (function of the event history): walk.Generic terminates; its event log is always well nested and a full Dyck word when the "
-            "visitor never cancels; after Consume the next event is the node's Exit and exactly the consumed subtrees are skipped; nothing follows SetDone/SetError and the right value is "
-            "returned; a nil branch yields the constructor error instead of being skipped. Proved for every schema and table: if the copy table is deep-or-harmlessly-shallow, Copy's result is equal "
-            "up to addresses and shares no mutable address with the original; if the structural branch table covers the schema, the structural walk enters every node the schema defines, and a "
-            "superset of the semantic walk. The side conditions are decided by the kernel on tables extracted from the current sources on every run, so a new field that copy() or a cursor "
-            "constructor forgets breaks the build. Current code: all side conditions hold, so both halves are theorems at full strength (c11_copy, c11_walk). The former defect — "
-            "errorContext.errors copied by assignment, append aliasing between a model and its copy, fixed by Copy(s.errors) + case []error — is kept as theorems over the named old table "
-            "(refutation by witness, partial, repaired) and as regression cases in corpus/C11.",
-    "note": "Trusted: Lean kernel, the syntactic extractor (cross-checked per case against reflection and the real walkers' logs), Go slice semantics, immutability of graph.Kind and opaque payloads.",
+    "text": "Proved for every finite tree and EVERY visitor (a function of the event history, i.e. any schedule of Consume / SetDone / SetError(nil or non-nil) calls): walk.Generic terminates; "
+            "its log is a prefix of a Dyck word, a complete one when no callback cancels and nil is returned; after Consume in Enter/Visit the next event is the node's Exit; replayed against the branch "
+            "tree every node not below a consumed node is entered and exited exactly once in branch order, a Consume in Exit prunes nothing; nothing follows SetDone / SetError(non-nil) and nil resp. the "
+            "error is returned; SetError(nil) never cancels; a nil branch yields the constructor's error; an uncancelled walk leaves the handler in its initial state, so walks with a reused visitor "
+            "equal fresh ones, and a cancelled visitor gets no further callback. Proved for every schema and table and instantiated by kernel-checked decide on tables regenerated from the current "
+            "sources (theorem c11 : C11_full): Copy's result equals the original up to addresses and shares no address through which a mutation is possible (empty slices included; helper functions "
+            "incl. graph.Kinds.Copy never return their argument), for every value built from types Copy has a case for and without typed-nil pointers; on every value without nil branches the structural "
+            "walk returns nil, enters no node twice, enters every node the schema defines, and a superset of the semantic walk. That the tables and the transcription are what the Go code does rests "
+            "on the differential tie (see coverage.clause_map in the evidence); the pgsql cursor constructor is only tied, not tabulated. The defect found earlier (errors slice shared between a model and "
+            "its copy, fixed in a4462d5) is kept as theorems over the named old table and as corpus regression cases.",
+    "note": "Trusted: Lean kernel, the syntactic extractors (cross-checked per case against reflection, the aliasing report and the real walkers' logs), Go slice/append/map semantics, immutability of "
+            "graph.Kind, error values and opaque any payloads. Hypotheses carried by the instance theorems: values are trees built from handled types without typed-nil pointers (copy); no nil branch in the "
+            "branch tree and never-acting visitors (visits-all, superset).",
 }
